@@ -60,9 +60,6 @@ func parseRaw(b []byte) (*rawPath, error) {
 	if want := 4 + 8*numINF + 12*p.NumHops; want != len(b) {
 		return p, fmt.Errorf("SegLen %v implies %d bytes, path has %d bytes", p.SegLen, want, len(b))
 	}
-	if p.NumHops > 64 {
-		return p, fmt.Errorf("%d hop fields exceed the maximum of 64", p.NumHops)
-	}
 	off := 4
 	for i := 0; i < numINF; i++ {
 		f := b[off]
